@@ -268,6 +268,30 @@ def rule_node(ctx: Ctx):
                 bad.append("a transition is listed without testing `internal`" if apps else "no `internal` test")
     rep.check(not bad and listed > 0 and skipped > 0, "C18.node", sa.loc(), "internal transitions (and only they) are listed inside their state's label", sa.key,
               "; ".join(sorted(set(bad))) or f"{listed} listed / {skipped} skipped iterations")
+    # whatever the listing is spelled as (chained generators included): the only filter on it is the `internal` flag - an internal
+    # transition without actions, guards or anything else is still a transition of the machine and is listed
+    extra = []
+
+    def _over_transitions(it_, derived_):
+        return (isinstance(it_, ast.Attribute) and it_.attr == "transitions") or (isinstance(it_, ast.Name) and it_.id in derived_)
+
+    derived = set()
+    for _round in range(3):
+        for a_ in own_nodes(sa.node):
+            if isinstance(a_, ast.Assign) and len(a_.targets) == 1 and isinstance(a_.targets[0], ast.Name) \
+                    and isinstance(a_.value, (ast.GeneratorExp, ast.ListComp, ast.SetComp)) and _over_transitions(a_.value.generators[0].iter, derived):
+                derived.add(a_.targets[0].id)
+    for nd in own_nodes(sa.node):
+        if isinstance(nd, (ast.GeneratorExp, ast.ListComp, ast.SetComp)) and _over_transitions(nd.generators[0].iter, derived):
+            for g_ in nd.generators:
+                for c_ in g_.ifs:
+                    t_ = c_
+                    while isinstance(t_, ast.UnaryOp) and isinstance(t_.op, ast.Not):
+                        t_ = t_.operand
+                    if not (isinstance(t_, ast.Attribute) and t_.attr == "internal"):
+                        extra.append(show(c_))
+    rep.check(not extra, "C18.node", sa.loc(), "the listing of internal transitions is filtered by the `internal` flag only", sa.key,
+              "; ".join(f"if {x}" for x in extra) or "no other filter")
 
 
 def rule_rendered_afresh(ctx: Ctx):
